@@ -6,8 +6,11 @@ import AvoVerif.Oracle.RegHW
 C20 driver: exact model answers for the register API (table rows,
 conversions, lookups, ids, specs, collections, classification) and acceptors
 that evaluate the declarative clauses of the property (`RegOK`, `IdentOK`,
-`AsOK`, `VAsOK`, `FreshOK`, `ClassOK` of Model/RegHW.lean — the statements proved
-in Props/C20.lean) on the implementation's outputs.
+`AsOK`, `VAsOK`, `VNewOK`, `VarOK`, `JunkLookupOK`, `AllocFailOK`, `FreshOK`,
+`ClassOK` of Model/RegHW.lean — the statements proved in Props/C20.lean) on the
+implementation's outputs.  Every acceptor is `decide` of the declarative
+statement itself (soundness is `of_decide_eq_true`); the `explain…` functions
+only name the first failing clause and answer `ok` iff the statement holds.
 -/
 namespace Avo.Drv.C20
 open Avo.Drv Avo.Reg
@@ -75,22 +78,94 @@ def parseRes : List String → Option (Option (Nat × Nat × Nat))
   | [a, b, c] => do some (some ((← a.toNat?), (← b.toNat?), (← c.toNat?)))
   | _ => none
 
+/-- `ok` iff `b`; otherwise `why` (a literal different from `ok` at every use). -/
 def verdict (b : Bool) (why : String) : String := if b then "ok" else why
 
-/-- Which clause of `RegOK` fails first (diagnostic only; `ok` iff `RegOK`). -/
-def explainReg (g : List HWRow) (r : RegRow) : String :=
-  if decide (RegOK g r) then "ok"
-  else if !decide (physical r) then "bad-pseudo"
-  else if g.isEmpty then "bad-no-measurement"
-  else if !decide (∀ h ∈ g, Matches r h) then "bad-measurement-of-other-name"
-  else if !decide (∀ h ∈ g, h.ok = true) then "bad-does-not-assemble"
-  else if !decide (∀ h ∈ g, h.cls = r.kind) then "bad-register-class"
-  else if !decide (∀ h ∈ g, h.num = r.idx) then "bad-hardware-register-number"
-  else if !decide (∀ h ∈ g, h.width = r.size) then "bad-operand-width"
-  else if !decide (∀ h ∈ g, maskBytes r.mask = viewBytes h.width h.hi) then "bad-mask-bytes"
-  else if !decide (∀ h ∈ g, ExecAgrees r h.exec) then "bad-executed-write"
-  else if !decide (r.size = byteCount (maskBytes r.mask) ∧ specSize r.mask = r.size ∧ r.mask < 128) then "bad-size"
-  else "bad-id"
+/-- `ok` iff `b`; otherwise `bad-` followed by a diagnostic naming the first failing clause. -/
+def explain (b : Bool) (why : String) : String := if b then "ok" else "bad-" ++ why
+
+/-- outcome token(s) `panic` | `id mask size kind` -/
+def parseRes4 : List String → Option (Option (Nat × Nat × Nat × Nat))
+  | ["panic"] => some none
+  | [a, b, c, d] => do some (some ((← a.toNat?), (← b.toNat?), (← c.toNat?), (← d.toNat?)))
+  | _ => none
+
+/-- Which clause of `RegOK` fails first (diagnostic only). -/
+def whyReg (g : List HWRow) (r : RegRow) : String :=
+  if !decide (physical r) then "pseudo"
+  else if g.isEmpty then "no-measurement"
+  else if !decide (∀ h ∈ g, Matches r h) then "measurement-of-other-name"
+  else if !decide (∀ h ∈ g, h.ok = true) then "does-not-assemble"
+  else if !decide (∀ h ∈ g, h.cls = r.kind) then "register-class"
+  else if !decide (∀ h ∈ g, h.num = r.idx) then "hardware-register-number"
+  else if !decide (∀ h ∈ g, h.width = r.size) then "operand-width"
+  else if !decide (∀ h ∈ g, maskBytes r.mask = viewBytes h.width h.hi) then "mask-bytes"
+  else if !decide (∀ h ∈ g, ExecAgrees r h.exec) then "executed-write"
+  else if !decide (r.size = byteCount (maskBytes r.mask) ∧ specSize r.mask = r.size ∧ r.mask < 128) then "size"
+  else "id"
+
+/-- Acceptor for one physical register: `ok` iff `RegOK` (`explainReg_sound`). -/
+def explainReg (g : List HWRow) (r : RegRow) : String := explain (decide (RegOK g r)) (whyReg g r)
+
+/-- Which clause of `VNewOK` fails first (diagnostic only).  `manufactured-view`
+is answered only when everything else about the register is as requested and
+the one thing wrong is that no register of the kind has that width view in
+hardware. -/
+def whyVNew (kind spec : Nat) (idx : Option Nat) : Option (Nat × Nat × Nat × Nat) → String
+  | none => "existing-view-refused"
+  | some (id, m, sz, k) =>
+    if !(idIsVirtual id && idKind id == kind && k == kind) then "virtual-id-or-kind"
+    else if !(idx.all (fun i => idIndex id == i)) then "virtual-index"
+    else if m != spec then "virtual-mask"
+    else if !hwSpecExists kind spec then "manufactured-view"
+    else if sz != byteCount (maskBytes spec) then "virtual-size"
+    else "virtual-register"
+
+/-- Acceptor for the virtual constructors: `ok` iff `VNewOK` (`explainVNew_sound`). -/
+def explainVNew (kind spec : Nat) (idx : Option Nat) (o : Option (Nat × Nat × Nat × Nat)) : String :=
+  explain (decide (VNewOK kind spec idx o)) (whyVNew kind spec idx o)
+
+/-- Which clause of `VarOK` fails first (diagnostic only). -/
+def whyVar (name : String) (i : Nat) (r : RegRow) : String :=
+  if regs[i]? != some r then "variable-is-not-a-register-of-the-families"
+  else if !decide (VarPseudoOK r (pseudoVars.lookup name)) then "pseudo-variable"
+  else "variable-denotes-another-register"
+
+/-- Acceptor for one exported variable: `ok` iff `VarOK` (`explainVar_sound`). -/
+def explainVar (name : String) (i : Nat) (r : RegRow) : String :=
+  explain (decide (VarOK regs oracle name i r)) (whyVar name i r)
+
+/-! Acceptors: each is `verdict`/`explain` of `decide` of the declarative statement
+(soundness theorems `accept…_sound` in Props/C20.lean). -/
+def acceptIdent (g g' : List HWRow) (r r' : RegRow) : String :=
+  verdict (decide (g ≠ [] ∧ g' ≠ [] ∧ IdentOK g g' r r')) "bad-identity"
+def acceptAs (kind idx id s : Nat) (res : Option (Nat × Nat × Nat)) : String :=
+  verdict (decide (AsOK kind idx id s res)) "bad-conversion"
+def acceptLookup (kind idx id s : Nat) (res : Option (Nat × Nat × Nat)) : String :=
+  verdict (decide (AsOK kind idx id s res)) "bad-lookup"
+def acceptVlook (kind idx id s : Nat) (res : Option (Nat × Nat × Nat)) : String :=
+  verdict (decide (AsOK kind idx id s res)) "bad-allocated-view"
+def acceptLookupVirtual (id : Nat) (res : Option RegRow) : String :=
+  verdict (decide (VirtualLookupOK id res)) "bad-virtual-id-resolves-to-physical"
+def acceptVAs (id s : Nat) (res : Option (Nat × Nat × Nat)) : String :=
+  verdict (decide (VAsOK (idKind id) id s res)) "bad-virtual-conversion"
+def acceptJunk (id s : Nat) (res : Option RegRow) : String :=
+  verdict (decide (JunkLookupOK id s res)) "bad-lookup-of-other-register"
+def acceptAllocFail (n : Nat) : String := verdict (decide (AllocFailOK n)) "bad-allocation-refused"
+def acceptCtor (ctor : String) (kind mask size id : Nat) : String :=
+  verdict (decide (CtorOK ctor kind mask size id)) "bad-constructor"
+def acceptFresh (k i j idi idj : Nat) : String := verdict (decide (FreshOK k i j idi idj)) "bad-collision"
+def acceptClass (g : List HWRow) (bits : List Bool) : String := verdict (decide (ClassOK g bits)) "bad-classification"
+def acceptVClass (kind mask : Nat) (bits : List Bool) : String :=
+  verdict (decide (VClassOK kind mask bits)) "bad-classification"
+
+/-- a lookup response `nil` | `name:kind:idx:mask:size:id` (the fields the statements use) -/
+def parseLookup (res : String) : Option (Option RegRow) :=
+  if res == "nil" then some none else
+  match res.splitOn ":" with
+  | [name, k, i, m, sz, pid] => do
+    some (some ⟨untok name, ← k.toNat?, ← i.toNat?, ← m.toNat?, ← sz.toNat?, 0, ← pid.toNat?⟩)
+  | _ => none
 
 def handle : Handler
   | ["row", i] => do
@@ -140,42 +215,69 @@ def handle : Handler
     let g' := (oracle[(← j.toNat?)]?).getD []
     let r : RegRow := ⟨"", 0, 0, 0, 0, 0, ← idi.toNat?⟩
     let r' : RegRow := ⟨"", 0, 0, 0, 0, 0, ← idj.toNat?⟩
-    if g.isEmpty || g'.isEmpty then some "bad-no-measurement" else
-    some (verdict (decide (IdentOK g g' r r')) "bad-identity")
+    some (acceptIdent g g' r r')
   | "accept-as" :: kind :: idx :: id :: m :: res => do
     let s ← methodSpec m
     let res ← parseRes res
-    some (verdict (decide (AsOK (← kind.toNat?) (← idx.toNat?) (← id.toNat?) s res)) "bad-conversion")
+    some (acceptAs (← kind.toNat?) (← idx.toNat?) (← id.toNat?) s res)
   | "accept-lookup" :: kind :: idx :: id :: s :: res => do
     let res ← parseRes res
-    some (verdict (decide (AsOK (← kind.toNat?) (← idx.toNat?) (← id.toNat?) (← s.toNat?) res)) "bad-lookup")
+    some (acceptLookup (← kind.toNat?) (← idx.toNat?) (← id.toNat?) (← s.toNat?) res)
   | ["accept-lookup-virtual", id, _s, res] => do
     -- `lookupID_virtual`: an id with the virtual flag never resolves to a physical register
-    let id ← id.toNat?
-    some (verdict (!idIsVirtual id || res == "nil") "bad-virtual-id-resolves-to-physical")
+    some (acceptLookupVirtual (← id.toNat?) (← parseLookup res))
   | "accept-vas" :: id :: m :: res => do
     let s ← methodSpec m
     let res ← parseRes res
-    some (verdict (decide (VAsOK (← id.toNat?) s res)) "bad-virtual-conversion")
+    let id ← id.toNat?
+    some (acceptVAs id s res)
+  | ["vnew", kind, idx, spec] => do
+    let v : Virt := ⟨← idx.toNat?, ← kind.toNat?, ← spec.toNat?⟩
+    some (showVirt v)
+  | "accept-vnew" :: _entry :: kind :: spec :: idx :: res => do
+    let res ← parseRes4 res
+    let idx ← if idx == "-" then some none else (idx.toNat?).map some
+    some (explainVNew (← kind.toNat?) (← spec.toNat?) idx res)
+  | ["vlook", vkind, vidx, vspec, pid] => do
+    -- reg.Allocation{v.ID(): pid}: LookupRegister(v), LookupDefault(v.ID()), LookupRegisterDefault(v)
+    let v : Virt := ⟨← vidx.toNat?, ← vkind.toNat?, ← vspec.toNat?⟩
+    let pid ← pid.toNat?
+    let res := lookupID regs pid v.spec
+    let dflt := match res with
+      | some p => s!"{p.id}:{p.mask}"
+      | none => s!"{v.id}:{v.mask}"
+    some s!"{showLookup res} {pid} {dflt}"
+  | "accept-vlook" :: kind :: idx :: id :: s :: res => do
+    let res ← parseRes res
+    some (acceptVlook (← kind.toNat?) (← idx.toNat?) (← id.toNat?) (← s.toNat?) res)
+  | ["accept-lookup-junk", id, s, res] => do
+    some (acceptJunk (← id.toNat?) (← s.toNat?) (← parseLookup res))
+  | ["accept-alloc-fail", _kind, n] => do
+    some (acceptAllocFail (← n.toNat?))
+  | ["accept-var", name, i, asm, kind, idx, mask, size, info, id] => do
+    let r : RegRow := ⟨untok asm, ← kind.toNat?, ← idx.toNat?, ← mask.toNat?, ← size.toNat?, ← info.toNat?, ← id.toNat?⟩
+    some (explainVar name ((i.toNat?).getD 100000) r)
+  | ["accept-var", _name, _status] => some "bad-variable-is-not-a-physical-register"
   | ["accept-ctor", ctor, kind, mask, size, id] => do
     -- a Collection constructor hands out a virtual register of its kind and width
-    let (k, s) ← ctorKindSpec ctor
-    let id ← id.toNat?
-    some (verdict ((← kind.toNat?) == k && (← mask.toNat?) == s && (← size.toNat?) == byteCount (maskBytes s) &&
-      idIsVirtual id && idKind id == k) "bad-constructor")
+    some (acceptCtor ctor (← kind.toNat?) (← mask.toNat?) (← size.toNat?) (← id.toNat?))
   | ["accept-fresh", k, i, j, idi, idj] => do
-    some (verdict (decide (FreshOK (← k.toNat?) (← i.toNat?) (← j.toNat?) (← idi.toNat?) (← idj.toNat?))) "bad-collision")
+    some (acceptFresh (← k.toNat?) (← i.toNat?) (← j.toNat?) (← idi.toNat?) (← idj.toNat?))
   | ["accept-class", _tag, name, kind, _idx, _mask, size, _id, bits] => do
     let r : RegRow := ⟨untok name, ← kind.toNat?, 0, 0, ← size.toNat?, 0, 0⟩
-    some (verdict (decide (ClassOK (groupOf oracle r) (parseBits bits))) "bad-classification")
+    some (acceptClass (groupOf oracle r) (parseBits bits))
   | ["accept-vclass", kind, mask, bits] => do
     let m ← mask.toNat?
-    -- a virtual register is classified by its kind and the byte count of its mask; it is none of AL … X0
-    some (verdict (parseBits bits == classBits false (← kind.toNat?) 0 m (byteCount (maskBytes m))) "bad-classification")
+    -- a virtual register is classified by its kind and the byte count of its mask; it is none of AL … X0.
+    -- (A "register" of a kind and width no hardware register has is not a view of anything: its manufacture is
+    -- judged by accept-vnew (F21), its classification only by the exact `vas` / `vnew` comparison.)
+    let k ← kind.toNat?
+    some (acceptVClass k m (parseBits bits))
   | _ => none
 
 def handlers : List (String × Handler) :=
   ["row", "pas", "vas", "coll", "collrun", "lookupid", "lookupphys", "id", "spec", "accept-reg", "accept-ident", "accept-as",
-   "accept-lookup", "accept-lookup-virtual", "accept-vas", "accept-ctor", "accept-fresh", "accept-class", "accept-vclass"].map (·, handle)
+   "accept-lookup", "accept-lookup-virtual", "accept-vas", "accept-ctor", "accept-fresh", "accept-class", "accept-vclass",
+   "vnew", "accept-vnew", "vlook", "accept-vlook", "accept-lookup-junk", "accept-alloc-fail", "accept-var"].map (·, handle)
 
 end Avo.Drv.C20
